@@ -53,12 +53,11 @@ def settle_facts(run, fs, describe=None):
         st = f.status
         if st == "proved" and f.gcc_status == "refuted":
             st = "refuted"
-            f.detail = "g++ disagrees with clang on this fact"
         if st == "proved" and f.gcc_status == "broken":
             st = "broken"
         n[st if st in n else "broken"] += 1
         if st == "refuted":
-            txt = (describe(f) if describe else None) or ("type fact %s: `%s` is %s, the oracle requires %s" % (f.key, f.expr, f.value, f.expect))
+            txt = (describe(f) if describe else None) or ("type fact %s: `%s` is %s, %s" % (f.key, f.expr, f.value, ("the oracle requires %s" % f.expect) if f.expect is not None else f.detail))
             run.violation(f.key, txt, {"key": f.key, "expr": f.expr, "value": f.value, "expect": f.expect, "decls": f.decls, "meta": f.meta},
                           finding_key=f.meta.get("finding_key") or f.key)
         elif st == "rejected":
